@@ -487,6 +487,12 @@ func (s *Sim) execOp(i int) {
 			break
 		}
 		s.log(Rec{Kind: "cause", S: "disconnect", Op: i + 1})
+		if op.Token == "base" && cfg.Client != "base" {
+			// the application disconnects through the BaseClient it got from
+			// Client(), below the retrying / reconnecting wrapper
+			err = s.retry.Client().Disconnect(ctx)
+			break
+		}
 		err = cli.Disconnect(ctx)
 	case "handle":
 		cli.Handle(s.handler(op.Handler))
@@ -584,6 +590,21 @@ func (s *Sim) handler(h int) mqtt.Handler {
 		}
 		if slow > 0 && !s.race {
 			time.Sleep(time.Duration(slow) * time.Microsecond)
+		}
+		if h == 4 {
+			// the handler owns its message: it clears the identifier and rewrites
+			// the rest (as a handler does that publishes the message on), then
+			// reports what it had received
+			got := msgPkt(m)
+			m.ID = 0
+			m.Topic = "scribbled/" + m.Topic
+			m.QoS = mqtt.QoS0
+			m.Retain, m.Dup = !m.Retain, !m.Dup
+			for i := range m.Payload {
+				m.Payload[i] = '#'
+			}
+			s.log(Rec{Kind: "hout", V: int64(h), P: got})
+			return
 		}
 		s.log(Rec{Kind: "hout", V: int64(h), P: msgPkt(m)})
 	})
